@@ -8,6 +8,19 @@ BASE = "cd /repo && /venv/bin/python -m pytest -ra -q -p no:cacheprovider --time
 
 # id -> dict(level, text, note, technique, design_ref, engine)
 CLAIMS = {
+ "C17": dict(
+  level="exploration",
+  text="Parser.tla contributes the mutation machine (Replace(node, kind) for every node of the item tree x 20 CBOR kinds, "
+       "Truncate at every byte, Inflate(node, 2^8/16/32/63 - 1), Nest(node, 10..1100)) whose behaviours TLC enumerates "
+       "exhaustively for one mutation and samples (TLC -simulate) for sequences of three, and the only judgement the property "
+       "makes: outcome class in {model, ValueError, SUITError} and CPU / peak-RSS budgets. Every mutant of three base "
+       "envelopes (flat, hierarchical, signed) plus seeded byte edits is fed to the real parser in disposable workers; Parse "
+       "events are judged by TLC. Exploration level: this family cannot quantify over all byte strings and the resource "
+       "clause is a measurement.",
+  note="Budgets: 5 s CPU, 256 MiB RSS growth for inputs <= 64 KiB. Accept vs reject is deliberately not predicted. Needs fix "
+       "F5 (2a526e7).",
+  technique="TLA+ mutation machine (Parser_MC) enumerated/simulated by TLC + replay of every mutant into the real parser + TLC trace validation of outcome class and budgets",
+  design_ref="DESIGN.md 4.14, 5 (C17)", engine="tlc"),
  "C18": dict(
   level="model_checking",
   text="Determinism.tla defines the INPUTS of every operation (operation + versions of the files it reads; not history, order, "
